@@ -514,6 +514,110 @@ func (e *c13Env) stableMintOp(ctx sdk.Context, b sdk.AccAddress, pr c13Product) 
 // auction; gen 2: liquidationsV2 + auctionsV2 Dutch auction), a bidder buys everything. Seizure and bidding are outside the model
 // (`lk.sync`); on the bid that closes the auction the penalty x := what arrived at the collector is the external input of
 // `lk.penalty` — the model then demands that the net-fee record of (app, debt asset) moved by exactly x.
+// dutchWinddownSequence: first-generation dutch auction of a liquidated vault, bid only PARTLY (debt <= collected < target), the app's
+// emergency shutdown executed with a price snapshot, the auction past its end: the real RestartDutchAuctions winds it down and pays
+// the collected part of the penalty (collected - principal) into the collector. Traced as a fee inflow `lk.penalty` with x := what
+// ARRIVED at the collector; `netfees_delta` / `collector_custody` judge the real record against the real custody (seed s104).
+func (e *c13Env) dutchWinddownSequence(base sdk.Context, prIdx int) {
+	gen1 := true
+	ctx, _ := base.CacheContext()
+	app, tr, rng := e.app, e.tr, e.rng
+	pr := e.products[prIdx]
+	gen := "gen2"
+	if gen1 {
+		gen = "gen1"
+	}
+	app.AuctionKeeper.SetAuctionParams(ctx, auctiontypes.AuctionParams{AppId: pr.app, AuctionDurationSeconds: 3600, Buffer: sdk.MustNewDecFromStr("1.2"),
+		Cusp: sdk.MustNewDecFromStr("0.7"), Step: sdk.NewInt(1), PriceFunctionType: 1, SurplusId: 1, DebtId: 2, DutchId: 3, BidDurationSeconds: 3600})
+	app.NewliqKeeper.SetLiquidationWhiteListing(ctx, liqtypes.LiquidationWhiteListing{AppId: pr.app, Initiator: true, IsDutchActivated: true,
+		DutchAuctionParam:  &liqtypes.DutchAuctionParam{Premium: sdk.MustNewDecFromStr("1.2"), Discount: sdk.MustNewDecFromStr("0.7"), DecrementFactor: sdk.NewInt(1)},
+		IsEnglishActivated: false, EnglishAuctionParam: &liqtypes.EnglishAuctionParam{DecrementFactor: sdk.NewInt(1)}, KeeeperIncentive: sdk.MustNewDecFromStr("0.1")})
+	app.NewaucKeeper.SetAuctionParams(ctx, auctionsV2types.AuctionParams{AuctionDurationSeconds: 3600, Step: sdk.MustNewDecFromStr("0.1"),
+		WithdrawalFee: sdk.ZeroDec(), ClosingFee: sdk.ZeroDec(), MinUsdValueLeft: 100000, BidFactor: sdk.MustNewDecFromStr("0.1"),
+		LiquidationPenalty: sdk.MustNewDecFromStr("0.1"), AuctionBonus: sdk.ZeroDec()})
+	tr.Line("lk.begin", "assets=1,2,3,4", "apps=1,2", e.collkField(ctx))
+	tr.Count("seq:dutch-winddown")
+	owner, bidder := e.borrowers[0], e.borrowers[1]
+	out := sdk.NewInt(int64(2000000 + rng.Intn(30000000)))
+	o0, _, _ := e.collectorParts(ctx, pr.app, c13AssetCmst)
+	// price 2.0, min CR 1.5: collateral = 0.76 × debt is just above the limit
+	res := e.deliver(ctx, &vaulttypes.MsgCreateRequest{From: owner.String(), AppId: pr.app, ExtendedPairVaultId: pr.ext, AmountIn: out.MulRaw(76).QuoRaw(100), AmountOut: out})
+	if res != "ok" {
+		tr.Count("penalty:" + gen + ":create-failed")
+		return
+	}
+	o1, _, _ := e.collectorParts(ctx, pr.app, c13AssetCmst)
+	tr.Line("lk.feevault", u(pr.app), u(c13AssetCmst), o1.Sub(o0).String(), "ok", e.state(ctx))
+	vid, _ := e.vaultOf(ctx, owner, pr.ext)
+	ctx = ctx.WithBlockTime(ctx.BlockTime().Add(time.Duration(1+rng.Intn(86400*30)) * time.Second)).WithBlockHeight(ctx.BlockHeight() + 10)
+	app.MarketKeeper.SetTwa(ctx, markettypes.TimeWeightedAverage{AssetID: c13AssetColl, ScriptID: 12, Twa: 1500000, CurrentIndex: 0,
+		IsPriceActive: true, PriceValue: []uint64{1500000}})
+	if gen1 {
+		res = e.deliver(ctx, &liq1types.MsgLiquidateVaultRequest{From: bidder.String(), AppId: pr.app, VaultId: vid})
+	} else {
+		res = e.deliver(ctx, &liqtypes.MsgLiquidateInternalKeeperRequest{From: bidder.String(), LiqType: 0, Id: vid})
+	}
+	tr.Count("penalty:" + gen + ":seize:" + res)
+	tr.Line("lk.sync", e.state(ctx))
+	colBal := func(c sdk.Context) sdk.Int {
+		return app.BankKeeper.GetBalance(c, authtypes.NewModuleAddress("collectorV1"), c13Denom[c13AssetCmst]).Amount
+	}
+	as := app.AuctionKeeper.GetDutchAuctions(ctx, pr.app)
+	if res != "ok" || len(as) == 0 {
+		tr.Count("winddown:no-auction")
+		return
+	}
+	a := as[0]
+	lv, _ := app.LiquidationKeeper.GetLockedVault(ctx, a.AppId, a.LockedVaultId)
+	// partial bid: the fraction of the collateral that brings in at least the debt but less than the target
+	placed := false
+	for _, pct := range []int64{78, 80, 75, 82, 72, 85, 70, 88, 65, 90} {
+		amt := a.OutflowTokenCurrentAmount.Amount.MulRaw(pct).QuoRaw(100)
+		cc, write := ctx.CacheContext()
+		msg := &auctiontypes.MsgPlaceDutchBidRequest{AuctionId: a.AuctionId, Bidder: bidder.String(),
+			Amount: sdk.NewCoin(a.OutflowTokenCurrentAmount.Denom, amt), AppId: a.AppId, AuctionMappingId: a.AuctionMappingId}
+		if msg.ValidateBasic() != nil {
+			continue
+		}
+		var err error
+		p, _ := try(func() { _, err = app.MsgServiceRouter().Handler(msg)(cc, msg) })
+		if p || err != nil {
+			continue
+		}
+		a2, err := app.AuctionKeeper.GetDutchAuction(cc, a.AppId, a.AuctionMappingId, a.AuctionId)
+		if err != nil || a2.InflowTokenCurrentAmount.Amount.LT(lv.AmountOut) || !a2.InflowTokenCurrentAmount.IsLT(a2.InflowTokenTargetAmount) {
+			continue
+		}
+		write()
+		a, placed = a2, true
+		break
+	}
+	if !placed {
+		tr.Count("winddown:no-partial-bid")
+		tr.Line("lk.sync", e.state(ctx))
+		return
+	}
+	tr.Count("winddown:partial-bid")
+	tr.Line("lk.sync", e.state(ctx))
+	e.cfgSwitch(ctx, "esm", pr.app, true)
+	app.EsmKeeper.SetESMStatus(ctx, esmtypes.ESMStatus{AppId: pr.app, Executor: owner.String(), Status: true, StartTime: ctx.BlockTime(), EndTime: ctx.BlockTime(), SnapshotStatus: true})
+	app.EsmKeeper.SetSnapshotOfPrices(ctx, pr.app, c13AssetColl, 1500000)
+	app.EsmKeeper.SetSnapshotOfPrices(ctx, pr.app, c13AssetCmst, 1000000)
+	ctx = ctx.WithBlockTime(a.EndTime.Add(time.Duration(1+rng.Intn(3600)) * time.Second)).WithBlockHeight(ctx.BlockHeight() + 700)
+	before := colBal(ctx)
+	out2 := e.atomic(ctx, func(cc sdk.Context) error { return app.AuctionKeeper.RestartDutchAuctions(cc, pr.app) })
+	_, gone := app.AuctionKeeper.GetDutchAuction(ctx, a.AppId, a.AuctionMappingId, a.AuctionId)
+	x := colBal(ctx).Sub(before)
+	tr.Count("winddown:" + out2)
+	if out2 != "ok" || gone == nil {
+		tr.Count("winddown:not-wound-down")
+		tr.Line("lk.sync", e.state(ctx))
+		return
+	}
+	tr.Count("cell:winddown:x=" + c13Cell(x))
+	tr.Line("lk.penalty", u(pr.app), u(c13AssetCmst), x.String(), "ok", e.state(ctx))
+}
+
 func (e *c13Env) penaltySequence(base sdk.Context, gen1 bool, prIdx int) {
 	ctx, _ := base.CacheContext()
 	app, tr, rng := e.app, e.tr, e.rng
@@ -1578,6 +1682,9 @@ func TestC13(t *testing.T) {
 	for v := 0; v < 3; v++ {
 		e.zeroWindowSequence(base, v)
 	}
+	// first-generation dutch auction wound down under emergency shutdown after a partial bid (seed s104)
+	e.dutchWinddownSequence(base, 0)
+	e.dutchWinddownSequence(base, 2)
 	seqs := scale(60, 1200)
 	maxOps := scale(70, 160)
 	for s := 0; s < seqs; s++ {
@@ -1601,6 +1708,10 @@ func TestC13(t *testing.T) {
 		}
 		if s%16 == 4 {
 			e.penaltySequence(base, rng.Chance(50), rng.Intn(8))
+			continue
+		}
+		if s%16 == 12 {
+			e.dutchWinddownSequence(base, rng.Intn(8))
 			continue
 		}
 		e.mainSequence(base, rng.Range(10, maxOps))
